@@ -232,7 +232,22 @@ def isolation_worker(analysis: Analysis, spec) -> dict:
     cbs = sum(1 for k, s, v in outs for e in s.events if e.kind == "cb")
     prefixed = all(any(e.kind == "cb" and e.args and "in_prefix" in repr(e.args[0].key()) for e in s.events) or not any(e.kind == "cb" for e in s.events) for k, s, v in outs)
     recv_cb = all(all(len(e.args) >= 2 and "recv" in repr(e.args[1].key()) for e in s.events if e.kind == "cb") for k, s, v in outs)
-    return {"flavour": spec, "escapes": esc, "cbs": cbs, "prefixed": prefixed, "recv_cb": recv_cb}
+    # one requested topic (the non-list form): every path must hand exactly that topic to the callback
+    it2 = analysis.new_interp(ctx)
+    st2, gw2 = analysis.gateway_state(it2)
+    st2.mem[(tr.key(), "a", "gateway")] = gw2
+    one = Sym(("root", "topic"), "str")
+    one.minsep = {"/": 5}
+    skipped = []
+    n_one = 0
+    for k, s2, v in analysis.run_root(it2, "gateway_mqtt:MQTTTransport.handle_subscription", [one], tr, st2):
+        if k != "val":
+            continue
+        n_one += 1
+        hits = [e for e in s2.events if e.kind == "cb" and e.args and "'topic'" in repr(e.args[0].key())]
+        if len(hits) != 1:
+            skipped.append(describe_path((k, s2, v), 14))
+    return {"flavour": spec, "escapes": esc, "cbs": cbs, "prefixed": prefixed, "recv_cb": recv_cb, "one_paths": n_one, "skipped": skipped}
 
 
 def run(analysis: Analysis, tier: str) -> RuleResult:
@@ -264,6 +279,8 @@ def run(analysis: Analysis, tier: str) -> RuleResult:
     for summ in common.pmap(analysis, isolation_worker, ["sync", "async"]):
         res.add("C17-R4", "gateway_mqtt:MQTTTransport.handle_subscription / a raising subscribe callback never escapes", not summ["escapes"], "mysensors/gateway_mqtt.py", "; ".join(summ["escapes"][:2]) or "caught and logged", context=summ["flavour"])
         res.add("C17-R4", "gateway_mqtt:MQTTTransport.handle_subscription / subscribes the inbound prefix + template with recv as callback", summ["cbs"] > 0 and summ["prefixed"] and summ["recv_cb"], "mysensors/gateway_mqtt.py", f"{summ['cbs']} callback events", context=summ["flavour"])
+        ok1 = summ["one_paths"] > 0 and not summ["skipped"]
+        res.add("C17-R3", "gateway_mqtt:MQTTTransport.handle_subscription / every requested topic is handed to the subscribe callback, exactly once", ok1, "mysensors/gateway_mqtt.py", f"{summ['one_paths']} paths for a single requested topic" if ok1 else "a path returns without passing the requested topic to the subscribe callback (e.g. skipped as already subscribed: a failed or forgotten subscription is never retried)", summ["skipped"][0] if summ["skipped"] else None, context=summ["flavour"])
     res.need("C17-R3", 8, "subscription obligations")
     res.units = {"functions": [TO_MQTT, TO_MSG, "gateway_mqtt:BaseMQTTGateway.init_topics", "gateway_mqtt:BaseMQTTGateway._handle_presentation", "gateway_mqtt:MQTTTransport.handle_subscription"], "source_digest": analysis.p.digest()}
     res.not_decided = ["broker-side wildcard semantics", "payload fidelity for every MQTT payload", "value-level round trip of topic <-> command"]
